@@ -319,4 +319,12 @@ def sampleControl : Control :=
 example : writeMsgL [0xAA, 0xBB] (.control sampleControl) =
     .ok ([0xAA, 0xBB, 0x13, 0x20, 0, 20, 0, 1, 0, 2, 0, 3, 0, 4, 1, 8, 0, 0, 0, 0, 0, 6], [(14, 2), (4, 2)]) := by decide
 
+/-- … in particular behind `n` zero octets for any `n` — 2^32 and more, and lengths just below a multiple of 2^32,
+    included: this is the model's side of the `encbig` / `encabig` cases (the implementation writes into a lazily mapped
+    vector of that size; the driver answers with the value's own encoding) -/
+theorem behind_zeros (n : Nat) (m : Msg) (a : AVP) :
+    writeMsg (List.replicate n 0) m = (encodeMsg m).map (List.replicate n 0 ++ ·) ∧
+    writeAvp (List.replicate n 0) a = (encodeAvp a).map (List.replicate n 0 ++ ·) :=
+  ⟨encodeInto_append _ m, encodeAvpInto_append _ a⟩
+
 end Rl2tp.C09
